@@ -63,10 +63,10 @@ type Pair0 struct {
 var listDerivs = []string{"Concat", "ConcatSelf", "SubList", "Filter", "FilterInts", "FilterStrings", "FilterFloats", "FilterObjects", "FilterLists",
 	"Map", "MapValues", "MapInts", "MapStrings", "MapFloats", "MapBools", "MapObjects", "MapLists", "MapAsync",
 	"Slice", "ObjectSlice", "ListSlice", "StringSlice", "BoolSlice", "IntSlice", "FloatSlice",
-	"Reduce", "ReduceInts", "ReduceStrings", "ReduceFloats", "String", "FormatString", "Equals", "Contains", "IndexOf"}
+	"Reduce", "ReduceInts", "ReduceStrings", "ReduceFloats", "String", "FormatString", "Equals", "EqualsTwin", "Contains", "IndexOf"}
 
 var objectDerivs = []string{"Merge", "MergeSelf", "Pluck", "Keys", "Values", "Dict", "Map", "MapValues", "MapInts", "MapStrings", "MapFloats", "MapBools",
-	"MapObjects", "MapLists", "MapAsync", "String", "FormatString", "Equals", "Contains"}
+	"MapObjects", "MapLists", "MapAsync", "String", "FormatString", "Equals", "EqualsTwin", "Contains"}
 
 var listMuts = []string{"Add", "Insert", "Replace", "Delete", "Pop", "Clear", "Sort", "Reverse"}
 var objectMuts = []string{"Set", "Unset", "Clear"}
@@ -441,6 +441,12 @@ func deriveList(d Deriv, r, a at.List) any {
 		return r.FormatString(d.A % 11)
 	case "Equals":
 		return r.Equals(a)
+	case "EqualsTwin":
+		// compared with a distinct but structurally equal tree (the comparison reaches every nested container)
+		if sv, err := Snap(r); err == nil {
+			return r.Equals(Build(sv).(at.List))
+		}
+		return nil
 	case "Contains":
 		if n > 0 {
 			return r.Contains(r.Get(d.A % n))
@@ -475,6 +481,15 @@ func deriveObject(d Deriv, r, a at.Object) any {
 			if (d.A>>uint(i))&1 == 1 || d.B%3 == 0 {
 				sel = append(sel, ks[i])
 			}
+		}
+		if d.B%5 == 1 {
+			// a key the receiver does not have: the pinned Pluck panics; whatever it does, it must not touch the receiver
+			sel = append(sel, "no\x00such key")
+			var res at.Object
+			if _, panicked := catch(func() { res = r.Pluck(sel...) }); panicked {
+				return pluckRefused{}
+			}
+			return res
 		}
 		given := append([]string{}, sel...)
 		res := r.Pluck(sel...)
@@ -514,11 +529,19 @@ func deriveObject(d Deriv, r, a at.Object) any {
 		return r.FormatString(d.A % 11)
 	case "Equals":
 		return r.Equals(a)
+	case "EqualsTwin":
+		if sv, err := Snap(r); err == nil {
+			return r.Equals(Build(sv).(at.Object))
+		}
+		return nil
 	case "Contains":
 		return r.Contains(d.A % 3)
 	}
 	return nil
 }
+
+// pluckRefused: Pluck was given a missing key and panicked (the caller recovered); there is no result.
+type pluckRefused struct{}
 
 // argumentChanged is returned by a derivation helper when the call modified a Go value passed to it.
 type argumentChanged struct{ what string }
@@ -702,6 +725,10 @@ func CheckC09(c *C09Case, st *Stats) error {
 		}
 		if ac, ok := res.(argumentChanged); ok {
 			return errf("%s", ac.what)
+		}
+		if _, refused := res.(pluckRefused); refused {
+			st.Count("deriv.pluck_missing_key_refused")
+			res = nil
 		}
 		if !slotsEqual(beforeR, slots(r)) {
 			return errf("%s changed its receiver: %s -> %s", d.Name, showSlots(beforeR), showSlots(slots(r)))
